@@ -84,6 +84,16 @@ def lemma_fsum_ext(a: A[float, 1], b: A[float, 1], lo: int, hi: int):
 
 
 @lemma(shared=True)
+def lemma_fsum_pos(a: A[float, 1], lo: int, hi: int):
+    requires(lo < hi, forall(lo, hi, lambda t: real(a[t]) > 0))
+    ensures(FSUM(a, lo, hi) > 0)
+    decreases(hi - lo)
+    unfold(FSUM(a, lo, hi), FSUM(a, lo, lo))
+    if hi - 1 > lo:
+        lemma_fsum_pos(a, lo, hi - 1)
+
+
+@lemma(shared=True)
 def lemma_fsum_scale(a: A[float, 1], b: A[float, 1], c: float, lo: int, hi: int):
     """b = c * a elementwise:  FSUM(b) == c * FSUM(a)"""
     requires(finite(c), forall(lo, hi, lambda t: real(b[t]) == real(a[t]) * c))
